@@ -179,6 +179,11 @@ struct Inner {
     /// protocol has seen them (the adapter does not model a connection that is gone before its
     /// `ConnectionEstablished` is handled)
     held_conns: std::collections::HashSet<u64>,
+    /// while the protocol loop is held, the remote side of only ONE peer acts on its substreams: which
+    /// of several entries with news the handshake service reports first is decided by the iteration
+    /// order of its hash map, and an early error return for one peer changes what a same-peer pair
+    /// (one result, one error) of another peer yields
+    held_pipe_peer: Option<u64>,
     /// iteration orders of the multi-peer `OpenSubstream` commands forwarded during this operation
     orders: Vec<String>,
     /// sink clones handed out by `notification_sink` (`None` = dropped)
@@ -281,6 +286,7 @@ impl Inner {
             cmd_hold: false,
             proto_hold: false,
             held_conns: Default::default(),
+            held_pipe_peer: None,
             orders: Vec::new(),
             sinks: Vec::new(),
             held_peers: Default::default(),
@@ -819,6 +825,12 @@ impl NotifBox {
                 else {
                     return "ignored".into();
                 };
+                if inner.proto_hold && matches!(*op, "hs" | "rclose" | "rreset" | "rsend") {
+                    match inner.held_pipe_peer {
+                        Some(q) if q != p as u64 => return "ignored".into(),
+                        _ => inner.held_pipe_peer = Some(p as u64),
+                    }
+                }
                 let ctl = inner.pipes[k].0.clone();
                 let mut res = "ok".to_string();
                 match *op {
@@ -970,6 +982,7 @@ impl NotifBox {
             ["prelease"] => {
                 inner.proto_hold = false;
                 inner.held_conns.clear();
+                inner.held_pipe_peer = None;
                 inner.proto_flag.0.store(true, Ordering::SeqCst);
                 let calls = inner.settle();
                 with_calls("ok", calls)
@@ -1049,9 +1062,17 @@ impl NotifBox {
                     _ => return "bad-op".into(),
                 };
                 let pid = peer(p as u64);
-                match inner.notif.negotiation.verif_timer(&pid, dir) {
-                    Some(timer) => *timer = futures_timer::Delay::new(Duration::ZERO),
-                    None => return "ignored".into(),
+                if inner.notif.negotiation.verif_timer(&pid, dir).is_none() {
+                    return "ignored".into();
+                }
+                if inner.proto_hold {
+                    match inner.held_pipe_peer {
+                        Some(q) if q != p as u64 => return "ignored".into(),
+                        _ => inner.held_pipe_peer = Some(p as u64),
+                    }
+                }
+                if let Some(timer) = inner.notif.negotiation.verif_timer(&pid, dir) {
+                    *timer = futures_timer::Delay::new(Duration::ZERO);
                 }
                 // the timer is fired by futures_timer's helper thread: wait for it (real time, bounded)
                 let mut calls = Vec::new();
